@@ -80,3 +80,39 @@ def mapping_views():
                         'getitem_agrees': all(obj[n] == getattr(obj, n) or obj[n] is getattr(obj, n) for n in names),
                         'types': [cls.amqp_type(n) for n in names], 'dict_keys': list(dict(obj))})
     return out
+
+
+def unmarshal_measured(data):
+    """frame.unmarshal under tracemalloc and a line counter restricted to pamqp's own files: outcome class, peak
+    allocation in octets, trace events inside pamqp.  One warm-up call on a fixed frame keeps lazy imports and
+    first-use caches out of the measurement."""
+    import sys
+    import tracemalloc
+    from pamqp import frame, exceptions
+    try:
+        frame.unmarshal(b'\x01\x00\x01\x00\x00\x00\x0d\x00\x32\x00\x0a\x00\x00\x01q\x00\x00\x00\x00\x00\xce')
+    except Exception:
+        pass
+    outer = sys.gettrace()
+    count = [0]
+
+    def tracer(frm, event, arg):
+        if '/pamqp/' in frm.f_code.co_filename:
+            count[0] += 1
+        if outer is not None:
+            outer(frm, event, arg)
+        return tracer
+    tracemalloc.start()
+    try:
+        sys.settrace(tracer)
+        try:
+            n, ch, obj = frame.unmarshal(data)
+            outcome = 'returned %s' % type(obj).__name__
+        except exceptions.UnmarshalingException:
+            outcome = 'UnmarshalingException'
+        finally:
+            sys.settrace(outer)
+        peak = tracemalloc.get_traced_memory()[1]
+    finally:
+        tracemalloc.stop()
+    return {'outcome': outcome, 'peak': peak, 'len': len(data), 'events': count[0]}
